@@ -248,5 +248,8 @@ def run(tier, seed):
     from checks import c02s
     build.ir_many([dict(config=c, flavour="O0") for c in cfgs])
     for cfg in cfgs: tasks += c02s.harnesses(rep, cfg, build.ir(cfg, "O0"), tier)
+    # inversion chain, batch inversion, products: layer S (scalars as monomials), checks/c02m.py
+    from checks import c02m
+    for cfg in cfgs: tasks += c02m.harnesses(rep, cfg, build.ir(cfg, "O0"), tier)
     run_tasks(tasks, rep)
     return rep
